@@ -1201,6 +1201,23 @@ func (f *Frugal) validateConstant(constant *Constant) error {
 		}
 		return fmt.Errorf("Referenced constant %s from include %s not found",
 			paramName, includeName)
+	} else if len(pieces) == 3 {
+		// A value of an enum of an include, written include.Enum.VALUE
+		frugalInclude, ok := f.ParsedIncludes[pieces[0]]
+		if !ok {
+			return fmt.Errorf("Include %s not found", pieces[0])
+		}
+		for _, enum := range frugalInclude.Enums {
+			if enum.Name != pieces[1] {
+				continue
+			}
+			for _, value := range enum.Values {
+				if value.Name == pieces[2] {
+					return nil
+				}
+			}
+		}
+		return fmt.Errorf("Referenced enum value %s not found", name)
 	}
 
 	return fmt.Errorf("Invalid constant name %s", name)
